@@ -39,6 +39,9 @@ def pool(rng, n):
         {"t": "ListOf", "typename": "Int32", "items": []}, {"t": "ListOf", "typename": "Int32", "items": [{"t": "Int32", "v": 1}]},
         {"t": "NodeId", "v": [0, "i", "5"]}, {"t": "NodeId", "v": [0, "i", 5]}, {"t": "NodeId", "v": [1, "s", "5"]}, {"t": "EURange", "low": "0.0", "high": "1.0"},
         {"t": "QualifiedName", "ns": 1, "name": "q"}, {"t": "Variant", "v": {"t": "Int32", "v": 3}},
+        # points in time with and without a zone, and with an offset
+        {"t": "DateTime", "v": "2021-03-01T06:00:00.000000", "tz": "utc"}, {"t": "DateTime", "v": "2021-03-01T14:30:00.000000", "tz": "naive"},
+        {"t": "DateTime", "v": "2021-03-01T08:00:00.000000", "tz": "120"}, {"t": "DateTime", "v": "1999-12-31T23:59:59.999999", "tz": "utc"},
     ]
     while len(descs) < n:
         descs.append(values.rand_value(rng))
@@ -161,8 +164,12 @@ def sort_cases(run, n):
             has_nan = any(c is not None and "nan" in c[1] for r in op["rows"] for c in r)
             cells = {(c[0], c[1]) for r in op["rows"] for c in r if c is not None}
             both_zeros = any((cl, tx.replace("-0.0", "0.0")) in cells for (cl, tx) in cells if "-0.0" in tx)
+            dts = [x.value for c in names for x in cols[c] if type(x).__name__ == "UADateTime"]
+            same_instant = any(x == y and repr(x) != repr(y) for x in dts for y in dts if x.tzinfo is not None and y.tzinfo is not None)
             if has_nan and run.known("D-C14b"):
                 run.count("known:D-C14b")
+            elif same_instant and run.known("D-C14d"):
+                run.count("known:D-C14d")
             elif both_zeros and run.known("D-C14c"):
                 run.count("known:D-C14c")
             else:
@@ -179,6 +186,13 @@ def graph_cases(run, n):
     with minibase.Scratch() as sc:
         d = sc.write(sc.sub("g"), {"a.xml": minibase.DOC_A, "b.xml": minibase.DOC_B})
         graphs.append(UAGraph.from_path(d))
+        # a node defined twice with different content (overlapping exports that were edited): both definitions are content
+        twice = minibase.DOC_A.replace("</UANodeSet>", '<UAObjectType NodeId="ns=1;i=1000" BrowseName="1:PumpType"><DisplayName>PumpType (revised)</DisplayName>'
+                                       '<References><Reference ReferenceType="HasSubtype" IsForward="false">i=58</Reference></References></UAObjectType></UANodeSet>')
+        try:
+            graphs.append(UAGraph.from_path(sc.write(sc.sub("g2x"), {"a.xml": twice, "b.xml": minibase.DOC_B})))
+        except Exception:  # noqa: BLE001
+            pass
         # generated graphs with parallel references (same end points, different types) and repeated names
         for j in range(max(2, n // 8)):
             gg = D.gen_graph(rng, hostile=False, closed=True, values_ok=False)
@@ -283,10 +297,26 @@ def zero_witness(run):
         run.known("D-C14c")
 
 
+def instant_witness(run):
+    """finding D-C14d: two DateTime values that denote the same point in time with different offsets are == (with equal hashes)
+    although `lt` orders them by their printed text, so pandas' sort treats them as one key (same mechanism as D-C14c)"""
+    import datetime as dtm
+    import pandas as pd
+    from opcua_tools.ua_data_types import UADateTime
+    a = UADateTime(value=dtm.datetime(2021, 3, 1, 6, 0, tzinfo=dtm.timezone.utc))
+    b = UADateTime(value=dtm.datetime(2021, 3, 1, 8, 0, tzinfo=dtm.timezone(dtm.timedelta(hours=2))))
+    run.case({"witness": "D-C14d"}, tag="witness")
+    f1 = pd.DataFrame({"k": ["x", "x"], "v": pd.Series([a, b], dtype=object)}).sort_values(by=["k", "v"], ignore_index=True)
+    f2 = pd.DataFrame({"k": ["x", "x"], "v": pd.Series([b, a], dtype=object)}).sort_values(by=["k", "v"], ignore_index=True)
+    if a == b and ((a < b) != (b < a)) and [repr(x) for x in f1["v"]] != [repr(x) for x in f2["v"]]:
+        run.known("D-C14d")
+
+
 def explore(run):
     rng = run.rng
     thorough = run.tier == "thorough"
     nan_witness(run)
+    instant_witness(run)
     zero_witness(run)
     order_cases(run, pool(rng, 300 if thorough else 60))
     if run.full():
